@@ -149,10 +149,25 @@ def model_constraints(case):
     return out
 
 
+def expr_offsets(e, acc=None):
+    acc = [] if acc is None else acc
+    if isinstance(e, list):
+        if e and e[0] == "off":
+            acc.append(e[1])
+        for a in e[1:]:
+            expr_offsets(a, acc)
+    return acc
+
+
 def constr_coq(cid, r, c):
-    return "(mkConstr %d%%nat %s %s %s %s %s %s)" % (
+    goffs = []
+    for rr in c["rels"]:
+        goffs += expr_offsets(rr["lhs"]) + expr_offsets(rr["rhs"])
+    goffs = sorted(set(goffs))
+    return "(mkConstr %d%%nat %s %s %s %s %s %s %s)" % (
         cid, "REq" if r["rel"] == "eq" else "RLe", expr_coq(r["lhs"]), expr_coq(r["rhs"]),
-        cq(c.get("scale", 1)), cbool(c.get("include_first", True)), cbool(c.get("include_last", True)))
+        cq(c.get("scale", 1)), cbool(c.get("include_first", True)), cbool(c.get("include_last", True)),
+        clist(["(%d)%%Z" % n for n in goffs]))
 
 
 def pconstr_coq(cid, r, c):
@@ -460,7 +475,7 @@ def apply_param_values(B, case):
                 B.ocp.set_value(p, ca.DM([float(Fr(v)) for v in vals]).reshape(p.shape))
         else:
             cols = pv.get("pc" if g == "control" else "pp", [])
-            if cols:
+            if cols and len(cols[0]) >= o + n:
                 if p.shape[1] == 1:
                     mat = ca.DM([[float(Fr(col[o + r])) for col in cols] for r in range(n)])
                 else:
